@@ -76,8 +76,12 @@ func NewSimpleLogic(config *Config, sms smsModule, cacheM CacheModule) VCLogic {
 	}
 }
 
+func cacheKey(areaCode, phone string) string {
+	return fmt.Sprintf("%d:%s%s", len(areaCode), areaCode, phone)
+}
+
 func (s *sender) SendSMSCode(areaCode, phone string) (string, error) {
-	var key = fmt.Sprintf("%s-%s", areaCode, phone)
+	var key = cacheKey(areaCode, phone)
 	var now = time.Now()
 	var c = s.fetchCache(key, true)
 	if c == nil {
@@ -97,7 +101,7 @@ func (s *sender) SendSMSCode(areaCode, phone string) (string, error) {
 }
 
 func (s *sender) VerifySMSCode(areaCode, phone, code, hash string) error {
-	var key = fmt.Sprintf("%s-%s", areaCode, phone)
+	var key = cacheKey(areaCode, phone)
 	var c = s.fetchCache(key, false)
 	if c == nil {
 		return ErrVerifyCodeNotExist
